@@ -40,6 +40,17 @@ def spec_cases(tier):
     for f in c09.arith_formulas():
         for subs, text, defs, top in c09.variants_any(f, limit, arith=True):
             out.append((f, defs, top, subs, text, False))
+    # long node names: identifiers of about 100 characters, and one long sub-formula used in two different contexts (names and name
+    # prefixes are keys of several look-up tables inside the monitors)
+    px, py = F.PX, F.PY
+    f1 = ('historically', (0, 2), ('historically', (0, 3), ('once', (1, 2), ('and', px, ('or', py, ('pred', '<=', F.X, F.C1))))))
+    longs = [(('since', None, ('and', f1, py), ('or', f1, py)), False), (('and', ('implies', f1, px), ('prev', ('iff', f1, px))), False)]
+    longs += [(F.rename(f), False) for f in past[::7]] + [(F.rename(f), True) for f in fut[::7]]
+    longs += [(F.rename(('and', ('once', (0, 1), px), ('historically', (0, 1), ('pred', '<=', F.X, F.C1)))), False),
+              (F.rename(('since', (1, 2), ('pred', '>', F.X, F.C0), ('or', ('pred', '<', F.X, F.C1), py))), False)]
+    for f, future in longs:
+        for subs, text, defs, top in c09.variants_any(f, 3 if tier == 'quick' else 10):
+            out.append((f, defs, top, subs, text, future))
     return out
 
 
@@ -144,7 +155,7 @@ def offline_ct(res, mod, case, f, defs, subs, text, tier):
     alone = {n: impl.build('ct_off', 'out = ' + F.pr(g), vs) for n, g in named}
     sigs = [s for s in c04.signal_sets(len(vs), 'quick') if min(v[0][0] for v in s.values()) == 0][::11 if tier == 'quick' else 3]
     for si, sig in enumerate(sigs):
-        sig = {v: sig[v if v in sig else 'x'] for v in vs}
+        sig = {v: sig[v[0] if v[0] in sig else 'x'] for v in vs}
         res.evaluations += 1
         k, val = impl.outcome(impl.ct_evaluate, spec, sig)
         msg = None
@@ -237,7 +248,7 @@ def run_shard(shard, tier, res):
         if not future:
             vs = sorted(F.fvars(f))
             for sig in c05.signal_sets(len(vs), 'quick')[:1 if quick else 4]:
-                sig = {v: sig['x' if (v == 'y' and len(vs) == 1) else v] for v in vs}
+                sig = {v: sig['x' if (v[0] == 'y' and len(vs) == 1) else v[0]] for v in vs}
                 m = GvSchedule(f, defs, subs, text, vs, sig)
 
                 def on_violation(hist, msg, sig=sig):
